@@ -14,7 +14,8 @@
      fixed helpers with chosen constants: bump (side effect + bool: operands of && ||), getg, two (two results, optionally NAMED
                               with a bare return), rec (recursion), mods (modifies a slice argument), setA (pointer argument),
                               mkS / sumS (struct result / struct argument modified inside: value semantics), guard (defer +
-                              recover + explicit panic), dfr (deferred call vs. returned value), tick (deferred by name)
+                              recover + explicit panic), dfr (deferred call vs. returned value), tick (deferred by name),
+                              the methods (p *S) addA / sum (pointer receivers; value receivers are excluded: U2)
      h(p, q)                  a helper with a GENERATED side-effect-free body
      F(a, b, xs)              the entry: optional defer, a GENERATED body (declarations of every type, assignments to variables /
                               elements / fields / map entries, op=, ++, swaps, if / else-if / init, the for forms, range over
